@@ -606,6 +606,10 @@ impl<'lexer> Lexer<'lexer> {
         2 => {
           if self.is_next_name_part_char() {
             state = 3;
+          } else if self.comment_length(1).is_some() {
+            // a comment ends the name, like any character that can not be a part of a name
+            self.position += 1;
+            break;
           } else if self.is_next_additional_name_symbol() {
             state = 4;
           } else if self.is_next_whitespace() {
